@@ -45,11 +45,14 @@ var typeNames = map[string]string{"access": ttAccess, "refresh": ttRefresh, "id"
 var space = engine.Space{
 	engine.D("subj", "jwt-at", "opaque-at", "rt", "rt-web", "idt", "idt-web", "at-xonly", "jwt-at-b", "idt-b", "expired-jwt-at", "expired-opaque-at", "expired-rt",
 		"expired-idt", "revoked-jwt-at", "revoked-opaque-at", "revoked-rt", "jwt-at-of-revoked-rt", "terminated-at", "terminated-rt", "idt-terminated",
-		"forged-key", "foreign-iss", "forged-sub", "garbage", "sealed-unknown", "sealed-3part", "sealed-1part", "ext", "missing"),
+		"forged-key", "foreign-iss", "forged-sub", "garbage", "sealed-unknown", "sealed-3part", "sealed-1part", "ext", "missing",
+		// third-party strings the role-specific verifier of caps=tv-role trusts as subject only / as actor only / in both roles / not at all (roles_test.go)
+		"tp-subj", "tp-act", "tp-both", "tp-none"),
 	// auto = the type the subject token really has (access_token for strings that are nothing)
 	engine.D("declared", "auto", "access", "refresh", "id", "jwt", "unknown", "none"),
 	engine.D("actor", "none", "jwt-at", "opaque-at", "rt", "idt", "jwt-at-b", "expired-jwt-at", "expired-opaque-at", "expired-rt", "expired-idt",
-		"revoked-jwt-at", "revoked-rt", "terminated-at", "garbage", "foreign-iss", "sealed-3part", "ext", "forged-key"),
+		"revoked-jwt-at", "revoked-rt", "terminated-at", "garbage", "foreign-iss", "sealed-3part", "ext", "forged-key",
+		"tp-subj", "tp-act", "tp-both", "tp-none"),
 	// auto = the actor token's real type when an actor token is sent, no parameter otherwise
 	engine.D("atype", "auto", "access", "refresh", "id", "jwt", "unknown", "none"),
 	engine.D("requested", "access", "none", "refresh", "id", "jwt", "unknown"),
@@ -60,7 +63,8 @@ var space = engine.Space{
 	engine.D("auth", "webjwt", "web", "post", "assertion", "xonly", "refresh-only", "no-grant", "wrong-secret", "unknown", "none", "post-wrong", "bad-escape", "assertion-forged"),
 	// form parameter client_id: auto = what the credential kind needs (the client's id for a POSTed secret, nothing otherwise)
 	engine.D("formcid", "auto", "absent", "own", "other", "unknown", "dup", "dup-rev"),
-	engine.D("caps", "all", "no-tv", "no-te"),
+	// all: refstore's verifier (both roles alike); tv-role: verifier with role-specific verdicts (roles_test.go)
+	engine.D("caps", "all", "no-tv", "no-te", "tv-role"),
 	// what the storage policy puts into the claims of the issued token (claims_test.go)
 	engine.D("claims", claimPolicies...),
 	// where the parameters travel: all in the body / grant_type in the URL query / everything in the URL query
@@ -247,7 +251,10 @@ type expectation struct {
 // judgeToken: is tk, declared as typ and presented under virtual host `host`, "a live token
 // of the declared supported type"? Returns mustServe (yes), mustRefuse (no) or either (the
 // statement does not say).
-func judgeToken(tk *tok, typ string, tv bool, host int) (int, string) {
+//
+// role: 's' the token is presented as subject_token, 'a' as actor_token. caps: the value of
+// dimension caps (which verifier for third-party tokens the storage has).
+func judgeToken(tk *tok, typ string, caps string, host int, role rune) (int, string) {
 	switch {
 	case tk.state == "missing":
 		return mustRefuse, "missing"
@@ -278,14 +285,18 @@ func judgeToken(tk *tok, typ string, tv bool, host int) (int, string) {
 		// signed by the provider's key, names a live token id but another subject: pairing id
 		// and subject is the storage's check, which refstore does not make (known laxity)
 		return either, "forged-sub"
-	case "ext":
-		if typ == ttJWT && tv {
-			return mustServe, ""
+	case "ext", "tp":
+		// not a token of the provider: acceptable only if the storage's verifier for THIS role
+		// vouches for it under the declared type
+		switch {
+		case typ != tk.typ:
+			return mustRefuse, "type-mismatch"
+		case caps != "tv-role" && !(caps == "all" && tk.state == "ext"):
+			return mustRefuse, "bogus" // nobody vouches for it
+		case !strings.ContainsRune(tk.roles, role):
+			return mustRefuse, "untrusted-in-role"
 		}
-		if typ == ttJWT {
-			return mustRefuse, "bogus" // nobody vouches for third-party tokens
-		}
-		return mustRefuse, "type-mismatch"
+		return mustServe, ""
 	}
 	// live, genuine
 	if typ == tk.typ {
@@ -341,9 +352,8 @@ func judge(in *input) *expectation {
 	if in.caps == "no-te" {
 		return refuse("no-exchange-storage")
 	}
-	tv := in.caps == "all"
 	// "presents a live subject token ... of the declared supported type"
-	k, why := judgeToken(in.subj, in.declared, tv, in.host)
+	k, why := judgeToken(in.subj, in.declared, in.caps, in.host, 's')
 	switch k {
 	case mustRefuse:
 		return refuse("subject-" + why)
@@ -355,7 +365,7 @@ func judge(in *input) *expectation {
 	}
 	// "and, if given, a live actor token"
 	if in.act.state != "missing" {
-		k, why = judgeToken(in.act, in.atype, tv, in.host)
+		k, why = judgeToken(in.act, in.atype, in.caps, in.host, 'a')
 		switch k {
 		case mustRefuse:
 			return refuse("actor-" + why)
@@ -365,7 +375,7 @@ func judge(in *input) *expectation {
 		if in.act.owner != "" && in.act.owner != in.clientID {
 			soft = append(soft, "actor-of-other-client")
 		}
-		e.actor = in.act.sub
+		e.actor = in.act.actorName() // what the verifier of the ACTOR role calls it
 	} else if in.atypeGiven {
 		soft = append(soft, "actor-type-without-actor")
 	}
@@ -430,8 +440,8 @@ type worker struct {
 
 func newWorker(t *testing.T, w *world) *worker {
 	k := &worker{w: w, t: t, rigs: map[string]*rig.Rig{}}
-	for name, caps := range capsOf {
-		k.rigs[name] = newRig(caps)
+	for _, name := range space[space.Idx("caps")].Vals {
+		k.rigs[name] = rigFor(name)
 	}
 	return k
 }
@@ -817,6 +827,17 @@ func TestCheck(t *testing.T) {
 			return wk.runClaims
 		},
 	})
+	// role-specific trust of the third-party verifier (roles_test.go)
+	c.RunE1(engine.E1{
+		Part:   "roles",
+		Space:  roleSpace,
+		Groups: [][]string{{"subj", "declared", "actor", "atype", "caps", "router"}},
+		Ks:     []int{engine.Pick(c, 0, 1)}, // deviations of requested type, credentials, policy, scopes, host, channel
+		NewWorker: func(int) func(engine.Vec) engine.Result {
+			wk := newWorker(t, w)
+			return wk.runRoles
+		},
+	})
 	kp := engine.Pick(c, 0, 1)
 	c.RunE1(engine.E1{
 		Part:  "pairs",
@@ -829,6 +850,16 @@ func TestCheck(t *testing.T) {
 		NewWorker: func(int) func(engine.Vec) engine.Result {
 			wk := newWorker(t, w)
 			return wk.runPair
+		},
+	})
+	c.RunE1(engine.E1{
+		Part:   "role-pairs",
+		Space:  rolePairSpace,
+		Groups: [][]string{{"x.subj", "x.actor", "y.subj", "y.actor", "router"}},
+		Ks:     []int{kp}, // deviations of capability form, first request's router, requested types
+		NewWorker: func(int) func(engine.Vec) engine.Result {
+			wk := newWorker(t, w)
+			return wk.runRolePair
 		},
 	})
 	c.Finish()
